@@ -71,6 +71,24 @@ def bypass_mechanism(spec, omitted, provided):
     return False
 
 
+def scope_mismatch_mechanism(spec, rsel):
+    """Classifier: validation scopes the contract to the RUN-TIME selection, execution resolves bound
+    values from the graph-level (cached) scope. A name bound inside a nested graph and also consumed by a
+    sibling without default is optional for validation when the run-time selection brings the nested graph
+    into scope, yet at execution the sibling finds no value (the graph-level selection excludes the nested
+    graph) and silently never runs."""
+    if not (spec.get("select") and rsel) or set(spec["select"]) == set(rsel):
+        return False
+    for ns in spec["nodes"]:
+        if ns["k"] == "sub":
+            for b in ns["prog"].get("bind") or {}:
+                ext = ref.forward_map([b], ns.get("rename_in")).get(b, b)
+                for o in spec["nodes"]:
+                    if o is not ns and any(e == ext and not ref.has_fallback(o, fp) for fp, e in ref.node_inputs(o)):
+                        return True
+    return False
+
+
 def check_config(ctx, spec, rsel, label):
     from hypergraph import MissingInputError
 
@@ -151,7 +169,7 @@ def check_config(ctx, spec, rsel, label):
             if err is None and sel_names and gate_free(spec) and not spec.get("entry") and o.status == "completed":
                 missing = [s for s in sel_names if s not in (o.values or {})]
                 if missing:
-                    ctx.violation("C08:selected-output-missing", f"{runner}: contract supplied exactly, selected outputs {missing} not produced", c2)
+                    ctx.violation("C08:selected-output-missing" + (":runtime-select-vs-graph-select-bound-scope" if scope_mismatch_mechanism(spec, rsel) else ""), f"{runner}: contract supplied exactly, selected outputs {missing} not produced", c2)
     # ---- necessity: every single omission ----
     ename, eps = entry_choices[0]
     full = dict(base)
